@@ -90,7 +90,7 @@ def body(case, rec):
     H = crn_gen.build(case)
     ref = reference(case)
     rec.nt(ref["nonzero_reactant_complexes"] >= 2)
-    rec.label(f"deficiency={min(ref['deficiency'], 3)}", f"weakly_reversible={ref['weakly_reversible']}", f"linkage={min(ref['n_linkage'], 4)}")
+    rec.label(f"reactions={min(len(case['rx']) // 3 * 3, 9)}+", f"deficiency={min(ref['deficiency'], 3)}", f"weakly_reversible={ref['weakly_reversible']}", f"linkage={min(ref['n_linkage'], 4)}")
     rec.show(dict(reactions=crn_gen.rx_str(case), complexes=ref["n_complexes"], linkage=ref["n_linkage"], rank=ref["rank"], deficiency=ref["deficiency"]))
     if ref["deficiency"] < 0:
         raise AssertionError("reference deficiency negative - oracle bug")
@@ -178,16 +178,36 @@ def enum_triples(tier):
         yield {"rx": [rx[a], rx[b], rx[c]]}
 
 
+@st.composite
+def complex_graph_nets(draw):
+    """Networks built from a drawn set of 3-7 complexes and directed arcs among them, each arc reversed with a
+    drawn probability: large linkage classes that mix reversible pairs with irreversible steps."""
+    sp = crn_gen.SPECIES[:5]
+    pool = draw(st.lists(crn_gen.side_strategy(sp, 2, 2, 0), min_size=3, max_size=7, unique_by=lambda d: tuple(sorted(d.items()))))
+    n = len(pool)
+    arcs = draw(st.lists(st.tuples(st.integers(0, n - 1), st.integers(0, n - 1)).filter(lambda t: t[0] != t[1]), min_size=2, max_size=8))
+    rx = []
+    for a, b in arcs:
+        if not pool[a] and not pool[b]:
+            continue
+        rx.append([dict(pool[a]), dict(pool[b]), "r"])
+        if draw(st.booleans()):
+            rx.append([dict(pool[b]), dict(pool[a]), "r"])
+    if not rx:
+        rx = [[{"A": 1}, {"B": 1}, "r"]]
+    return {"rx": rx}
+
+
 def strat(tier):
     rev = crn_gen.net_strategy(max_species=6, max_rxn=3, max_coef=2, allow_empty_side=True).map(
         lambda c: {"rx": c["rx"] + [[p, r, rule] for r, p, rule in c["rx"]]}
     )
-    return st.one_of(crn_gen.net_strategy(max_species=6, max_rxn=6, max_coef=3), rev)
+    return st.one_of(crn_gen.net_strategy(max_species=6, max_rxn=6, max_coef=3), rev, complex_graph_nets(), complex_graph_nets())
 
 
 SUBS = [
     Sub("textbook", body_textbook, enum=lambda tier: [{"i": i} for i in range(len(TEXTBOOK))], exhaustive=True, shards={"quick": 1, "thorough": 1}),
     Sub("small_pairs", body, enum=enum_small, exhaustive=("thorough",), shards={"quick": 16, "thorough": 16}),
     Sub("small_triples", body, enum=enum_triples, shards={"quick": 8, "thorough": 16}),
-    Sub("random", body, strategy=strat, examples={"quick": 6000, "thorough": 150000}, shards={"quick": 16, "thorough": 16}),
+    Sub("random", body, strategy=strat, examples={"quick": 16000, "thorough": 300000}, shards={"quick": 16, "thorough": 16}),
 ]
